@@ -205,22 +205,30 @@ def make_context(label: str):
     from elementpath.datatypes import DateTime10
     if label == 'c1':
         root = ET.ElementTree(ET.fromstring(DOCS['d1']))
-        return dict(root=root, variables=dict({'x': 10, 'y': 20, 'd': DateTime10.fromstring('2000-01-01T00:00:00')}, **typed_vars(0)),
-                    timezone=None, namespaces={'p': 'urn:p'})
+        return with_node_vars(dict(root=root, variables=dict({'x': 10, 'y': 20, 'd': DateTime10.fromstring('2000-01-01T00:00:00')}, **typed_vars(0)),
+                    timezone=None, namespaces={'p': 'urn:p'}))
     if label == 'c2':
         root = ET.ElementTree(ET.fromstring(DOCS['d2']))
-        return dict(root=root, variables=dict({'x': 1, 'y': 2, 'd': DateTime10.fromstring('2000-01-01T00:00:00')}, **typed_vars(1)),
-                    timezone='+05:00', namespaces={'p': 'urn:p'}, focus=True)
+        return with_node_vars(dict(root=root, variables=dict({'x': 1, 'y': 2, 'd': DateTime10.fromstring('2000-01-01T00:00:00')}, **typed_vars(1)),
+                    timezone='+05:00', namespaces={'p': 'urn:p'}, focus=True))
     if label == 'c3':
         root = ET.fromstring(DOCS['d1'])   # Element root, other variables, negative timezone
-        return dict(root=root, variables=dict({'x': 7, 'y': 3, 'd': DateTime10.fromstring('1999-12-31T23:00:00')}, **typed_vars(2)),
-                    timezone='-03:00', namespaces={'p': 'urn:p'})
+        return with_node_vars(dict(root=root, variables=dict({'x': 7, 'y': 3, 'd': DateTime10.fromstring('1999-12-31T23:00:00')}, **typed_vars(2)),
+                    timezone='-03:00', namespaces={'p': 'urn:p'}))
     if label == 'c4':
         # a second Element root whose root element has another (prefixed) name: state derived from the root of an earlier tree
         root = ET.fromstring(DOCS['d4'])
-        return dict(root=root, variables=dict({'x': 4, 'y': 5, 'd': DateTime10.fromstring('2000-01-01T00:00:00')}, **typed_vars(1)),
-                    timezone=None, namespaces={'p': 'urn:p'})
+        return with_node_vars(dict(root=root, variables=dict({'x': 4, 'y': 5, 'd': DateTime10.fromstring('2000-01-01T00:00:00')}, **typed_vars(1)),
+                    timezone=None, namespaces={'p': 'urn:p'}))
     raise ValueError(label)
+
+
+def with_node_vars(ctx: dict) -> dict:
+    """a caller variable whose value is a LIST of raw tree elements and an atomic value (the caller's list must stay as it is)"""
+    root = ctx['root']
+    el = root.getroot() if hasattr(root, 'getroot') else root
+    ctx['variables']['nodes'] = [el[0], el[1], 7]
+    return ctx
 
 
 TEMPLATES = [
@@ -275,6 +283,7 @@ TEMPLATES = [
     ('3.1', 'count(($cm("k"), 3))'), ('3.1', 'let $s := ($cm?k, 3), $t := (array:get($ca, 1), 40), $u := (map:get($cm, "e"), 0) return (count($s), count($t), count($u))'),
     ('3.1', '($ca(1), $ca?3, 9)'), ('3.1', 'let $f := function() {} return count(($f(), 1))'), ('3.1', 'array:size(array:append($ca, ($cm?k, 1)))'),
     ('3.1', 'map:size(map:put($cm, "n", ($cm?k, $cm?e)))'), ('3.1', '[($cm?k, $ca?1)]?1'), ('3.1', 'string-join((($cm?s, "z")), "")'),
+    ('2.0', 'count($nodes)'), ('2.0', '$nodes[1]/@v'), ('2.0', 'for $n in $nodes return string($n)'), ('2.0', '($nodes, 1)[last()]'),
     ('3.1', 'array:flatten(($ca, $cm?k))'), ('3.1', 'map:for-each($cm, function($k, $v) { count(($v, 0)) })'),
 ]
 
